@@ -311,6 +311,7 @@ package state
 //@   requires m != nil && bus != nil && ctx != nil
 //@   ensures [C18.replay.delegates] cnt(busReplayCall) == 1 && lastarg(busReplayCall, 0) == bus && lastarg(busReplayCall, 1, Iface) == ctx && lastarg(busReplayCall, 2, String) == from &&
 //@        result == lastres(busReplayCall, Iface)
+//@   ensures [C18.replay.callback] boundmethod(busReplayCall, 3, m, "Apply")
 
 //@ func NewTypedCollection
 //@   props C18 C19
